@@ -331,6 +331,7 @@ type compRec struct {
 	tag    string
 	w      Iface
 	tagged bool
+	closed bool
 }
 
 func (in *Interp) compNew(fn *ssa.Function, tag string, w Val, withErr bool) Val {
@@ -355,6 +356,11 @@ func (in *Interp) compWrite(fr *frame, recv Val, p Val, closing bool) Val {
 		in.invokeMethod(fr, r.w, "Write", in.bytesOfStr(Str{S: r.tag + ":"}))
 	}
 	if closing {
+		// Close finishes the stream: the trailer every decoder of the coding insists on
+		if !r.closed {
+			r.closed = true
+			in.invokeMethod(fr, r.w, "Write", in.bytesOfStr(Str{S: ";"}))
+		}
 		return Iface{}
 	}
 	b := p.(BSlice)
@@ -388,6 +394,23 @@ func registerCompressModels(e *Engine) {
 	for _, t := range []string{"compress/gzip.Writer", "compress/flate.Writer", "compress/zlib.Writer", "github.com/andybalholm/brotli.Writer", "github.com/klauspost/compress/zstd.Encoder"} {
 		e.reg("(*"+t+").Write", func(in *Interp, fr *frame, fn *ssa.Function, a []Val) Val { return in.compWrite(fr, a[0], a[1], false) })
 		e.reg("(*"+t+").Close", func(in *Interp, fr *frame, fn *ssa.Function, a []Val) Val { return in.compWrite(fr, a[0], nil, true) })
+		// Flush pushes out what was written so far WITHOUT finishing the stream (no trailer)
+		e.reg("(*"+t+").Flush", func(in *Interp, fr *frame, fn *ssa.Function, a []Val) Val {
+			q := nilCheck(in, a[0])
+			if r, _ := in.side[fmt.Sprintf("comp%p", q)].(*compRec); r != nil && !r.tagged {
+				r.tagged = true
+				in.invokeMethod(fr, r.w, "Write", in.bytesOfStr(Str{S: r.tag + ":"}))
+			}
+			return Iface{}
+		})
+		// Reset(w): the writer starts a new stream on w
+		tag := map[string]string{"compress/gzip.Writer": "GZ", "compress/flate.Writer": "FL", "compress/zlib.Writer": "ZL", "github.com/andybalholm/brotli.Writer": "BR", "github.com/klauspost/compress/zstd.Encoder": "ZS"}[t]
+		e.reg("(*"+t+").Reset", func(in *Interp, fr *frame, fn *ssa.Function, a []Val) Val {
+			q := nilCheck(in, a[0])
+			w, _ := a[1].(Iface)
+			in.side[fmt.Sprintf("comp%p", q)] = &compRec{tag: tag, w: w}
+			return nil
+		})
 	}
 	// json.Encoder: Encode(v) writes the recording text of v plus a newline
 	e.reg("encoding/json.NewEncoder", func(in *Interp, fr *frame, fn *ssa.Function, a []Val) Val {
